@@ -180,7 +180,9 @@ def step (st : DSt) (line : String) : DSt × String :=
               else "0:next-offset"
           | _, _ => "0:unparsable-output"
         | _ => "0:unparsable-output"
-      let nt := boolStr (items.length ≥ 2 || (match res with | .done _ _ (some _) => true | _ => false))
+      -- trivial: fewer than 18 bytes, or exactly one complete well-formed frame
+      let cut := match items.getLast? with | some (.stop _) => true | some (.badMagic _) => true | _ => false
+      let nt := boolStr (items.length ≥ 2 || cut || (match res with | .done _ _ (some _) => true | _ => false))
       (st, s!"{mout} | {verdict} | {nt}")
     | _, _, _, _, _ => (st, "bad-op | - | 0")
   | _ => (st, "bad-op | - | 0")
